@@ -209,6 +209,13 @@ func shJudge(c *mon.Ctx, in *shCase, legacy bool) {
 	}
 	for j := range s.Ins {
 		if uint32(j) != in.Idx && len(s.Ins[j].TxID) != 32 {
+			// With ANYONECANPAY the fork-id preimage holds nothing of the other inputs (hashPrevouts and
+			// hashSequence are zero): a transaction still being assembled, whose other inputs are
+			// placeholders without an outpoint, has a specified digest for its complete input.
+			if !legacy && in.HashType&0x80 != 0 && len(s.Ins[j].TxID) == 0 {
+				c.Count("anyonecanpay:other-input-is-a-placeholder-without-outpoint")
+				continue
+			}
 			c.Count("skipped:out-of-domain(other input without 32-byte txid)")
 			return
 		}
@@ -583,6 +590,37 @@ func shRun(c *mon.Ctx, prop string, forkid bool, judge func(*mon.Ctx, *shCase)) 
 		}
 	}
 
+	if forkid {
+		c.Phase("anyonecanpay-placeholder-inputs") // a transaction under assembly: the signed input is complete, another one has no outpoint yet
+		n = 0
+		for si, s := range shFixedShapes(c.Seed, prop) {
+			k := len(s.Ins)
+			if k < 2 {
+				continue
+			}
+			for i := 0; i < k; i++ {
+				for _, t := range types {
+					if t&0x80 == 0 {
+						continue
+					}
+					n++
+					if !c.Case(n) {
+						continue
+					}
+					j := (i + 1 + int(n)%(k-1)) % k // another input
+					v := shDefect(s, j, []string{"no-txid", "no-txid-json"}[(si+i)%2])
+					if n%3 == 0 && k > 2 { // every other input is a placeholder
+						for jj := 0; jj < k; jj++ {
+							if jj != i {
+								v = shDefect(&v, jj, "no-txid")
+							}
+						}
+					}
+					judge(c, &shCase{Shape: v, Idx: uint32(i), HashType: t})
+				}
+			}
+		}
+	}
 	c.Phase("many-inputs-outputs") // input / output counts around the varint boundary and around powers of two (internal batch sizes)
 	{
 		few := []uint8{0x41, 0x42, 0x43, 0xc1, 0xc2, 0xc3}
